@@ -11,20 +11,55 @@ from tools import common
 LEVEL = "proof"
 
 
+def _strip_reads(line):
+    """(line without the kind-2 ops, [number of insertions before each read], {p: model case line of the first p insertions})"""
+    v = line.split()
+    n = int(v[3])
+    ops = [(v[4 + 3 * k], v[5 + 3 * k], v[6 + 3 * k]) for k in range(n)]
+    if not any(o[0] == "2" for o in ops):
+        return line, [], {}
+    keep, ra, pushes = [], [], []
+    for o in ops:
+        if o[0] == "2":
+            ra.append(len(pushes))
+        else:
+            keep.append(o)
+            if o[0] == "0":
+                pushes.append(o)
+    sl = "RL %s %s %d %s" % (v[1], v[2], len(keep), " ".join(" ".join(o) for o in keep))
+    prefs = {p: "RL %s %s %d %s" % (v[1], v[2], p, " ".join(" ".join(o) for o in pushes[:p])) for p in set(ra) if 0 < p < len(pushes)}
+    return sl.strip(), ra, prefs
+
+
 def _chunk_worker(args):
-    harness, driver, lines = args
-    inp = "\n".join(lines) + "\n"
+    harness, driver, full_lines = args
+    inp = "\n".join(full_lines) + "\n"
     pi = subprocess.run([harness, "run"], input=inp, capture_output=True, text=True, timeout=3000)
-    pm = subprocess.run([driver], input=inp, capture_output=True, text=True, timeout=3000)
+    # reads of the placement (kind 2) are removed for the model, which gets in addition one line per distinct read point:
+    # the insertions made so far (queries are pure in the model: c12_query_pure), i.e. the model's placement of that prefix
+    lines, read_at, minp, pref_idx = [], [], [], []
+    for fl in full_lines:
+        sl, ra, prefs = _strip_reads(fl)
+        lines.append(sl)
+        read_at.append(ra)
+        pref_idx.append(prefs)
+    minp = list(lines)
+    for prefs in pref_idx:
+        for p_ in sorted(prefs):
+            minp.append(prefs[p_])
+            prefs[p_] = len(minp) - 1   # from now on: index of the model's answer for that prefix
+    pm = subprocess.run([driver], input="\n".join(minp) + "\n", capture_output=True, text=True, timeout=3000)
     impl = pi.stdout.split("\n")
     model = pm.stdout.split("\n")
     st = {"n": len(lines), "mismatch": [], "oracle_fail": [], "unchecked": 0, "nontrivial": set(),
           "clamped": 0, "pushed_left": 0, "queries": 0, "pushes": 0, "incomplete": [], "harness_rc": pi.returncode,
-          "passed_gt32": 0, "passed_gt64": 0, "passed_gt128": 0, "maxpassed": 0, "maxcells": 0, "repeated_queries": 0}
+          "passed_gt32": 0, "passed_gt64": 0, "passed_gt128": 0, "maxpassed": 0, "maxcells": 0, "repeated_queries": 0,
+          "reads": 0, "double_reads": 0, "read_mismatch": 0}
     rlc = []
     rlc_idx = []
     parsed = {}
     for i, line in enumerate(lines):
+        fl = full_lines[i]
         il = impl[i] if i < len(impl) else "<missing>"
         ml = model[i] if i < len(model) else "<missing>"
         mparts = ml.rsplit("|", 1)
@@ -35,17 +70,17 @@ def _chunk_worker(args):
         ires = " | ".join(iparts[:2]) if len(iparts) >= 2 else il.strip()
         if " ".join(ires.split()) != " ".join(mres.split()):
             if len(st["mismatch"]) < 20:
-                st["mismatch"].append((line, il, mres))
+                st["mismatch"].append((fl, il, mres))
             else:
                 st["mismatch"].append(None)
         if mchk != "1":
-            st["incomplete"].append(line) if len(st["incomplete"]) < 5 else None
+            st["incomplete"].append(fl) if len(st["incomplete"]) < 5 else None
         # --- oracle on the implementation's own output
         v = line.split()[1:]
         b, e, n = int(v[0]), int(v[1]), int(v[2])
         ops = [(int(v[3 + 3 * k]), int(v[4 + 3 * k]), int(v[5 + 3 * k])) for k in range(n)]
         if "|" not in il:
-            st["oracle_fail"].append((line, il, "did not return a placement (abort/throw/crash)"))
+            st["oracle_fail"].append((fl, il, "did not return a placement (abort/throw/crash)"))
             continue
         try:
             pls, cs = iparts[0], iparts[1]
@@ -53,18 +88,18 @@ def _chunk_worker(args):
             costs = [int(x) for x in cs.split()]
             maxpassed, badop = [int(x) for x in iparts[2].split()] if len(iparts) > 2 else (0, -1)
         except ValueError:
-            st["oracle_fail"].append((line, il, "unparsable output"))
+            st["oracle_fail"].append((fl, il, "unparsable output"))
             continue
         pushes = [(w, t) for (k, w, t) in ops if k == 0]
         st["pushes"] += len(pushes)
         st["queries"] += n - len(pushes)
         if len(pl) != len(pushes) or len(costs) != n:
-            st["oracle_fail"].append((line, il, "wrong number of positions/costs"))
+            st["oracle_fail"].append((fl, il, "wrong number of positions/costs"))
             continue
         tot = sum(w * abs(x - t) for (w, t), x in zip(pushes, pl))
         psum = sum(c for (k, w, t), c in zip(ops, costs) if k == 0)
         if psum != tot:
-            st["oracle_fail"].append((line, il, "reported push costs sum to %d, displacement of the placement is %d" % (psum, tot)))
+            st["oracle_fail"].append((fl, il, "reported push costs sum to %d, displacement of the placement is %d" % (psum, tot)))
             continue
         bad = None
         if badop >= 0:
@@ -92,23 +127,57 @@ def _chunk_worker(args):
         for k in range(n - 1):
             if ops[k][0] == 1 and ops[k + 1][0] == 0 and ops[k][1:] == ops[k + 1][1:] and costs[k] != costs[k + 1] and not bad:
                 bad = "predicted cost %d differs from performed cost %d (op %d)" % (costs[k], costs[k + 1], k)
+        # --- reads of the placement between the insertions: each one against the model's placement of the same prefix,
+        #     and (below) through the proved certificate checker as the placement of the cells inserted so far
+        ra = read_at[i]
+        rds = []
+        if ra:
+            try:
+                rds = [[int(x) for x in r.split()[1:]] for r in iparts[3].split(";")] if len(iparts) > 3 else []
+            except ValueError:
+                rds = []
+            if len(rds) != len(ra) and not bad:
+                bad = "%d reads of getPlacement() asked, %d answered" % (len(ra), len(rds))
+            st["reads"] += len(rds)
+            for j, (p_, r) in enumerate(zip(ra, rds)):
+                if j and ra[j - 1] == p_:
+                    st["double_reads"] += 1
+                if 0 < p_ < len(pushes):
+                    mi = pref_idx[i][p_]
+                    mpl = model[mi].split("|")[0].split() if mi < len(model) else ["<missing>"]
+                else:
+                    mpl = [] if p_ == 0 else mres.split("|")[0].split()
+                if [str(x) for x in r] != mpl:
+                    st["read_mismatch"] += 1
+                    if len(st["mismatch"]) < 20:
+                        st["mismatch"].append((fl, il, "read %d (after %d insertions): model placement %s" % (j, p_, " ".join(mpl))))
+                    else:
+                        st["mismatch"].append(None)
+                if len(r) != p_ and not bad:
+                    bad = "getPlacement() read after %d insertions returns %d positions" % (p_, len(r))
         if bad:
-            st["oracle_fail"].append((line, il, bad))
+            st["oracle_fail"].append((fl, il, bad))
             continue
+        for j, (p_, r) in enumerate(zip(ra, rds)):
+            if p_ > 0:
+                rlc.append("RLC %d %d %d %s" % (b, e, p_, " ".join("%d %d %d" % (w, t, x) for (w, t), x in zip(pushes[:p_], r))))
+                rlc_idx.append((i, "getPlacement() read %d of the history (after %d insertions, before the next push) returns %s: the proved "
+                                   "certificate checker rejects it as the placement of the cells inserted so far (overlap / out of order / "
+                                   "outside the segment / not optimal)" % (j, p_, r)))
         if tot > 0:
-            st["nontrivial"].add(line)
+            st["nontrivial"].add(fl)
         if any(x + w == e and t > x for (w, t), x in zip(pushes, pl)):
             st["clamped"] += 1
         if any(x < t for (w, t), x in zip(pushes, pl)):
             st["pushed_left"] += 1
         rlc.append("RLC %d %d %d %s" % (b, e, len(pl), " ".join("%d %d %d" % (w, t, x) for (w, t), x in zip(pushes, pl))))
-        rlc_idx.append(i)
+        rlc_idx.append((i, "proved certificate checker rejects the C++ positions: illegal or not optimal"))
     if rlc:
         pc = subprocess.run([driver], input="\n".join(rlc) + "\n", capture_output=True, text=True, timeout=3000)
         out = pc.stdout.split("\n")
-        for j, i in enumerate(rlc_idx):
+        for j, (i, why) in enumerate(rlc_idx):
             if j >= len(out) or out[j].strip() != "1":
-                st["oracle_fail"].append((lines[i], impl[i], "proved certificate checker rejects the C++ positions: illegal or not optimal"))
+                st["oracle_fail"].append((full_lines[i], impl[i], why))
     st["nontrivial"] = len(st["nontrivial"])
     st["oracle_fail"] = st["oracle_fail"][:20]
     return st
@@ -156,7 +225,7 @@ def run_cases(ctx, harness, driver, lines):
 
 def vm_crosscheck(ctx, driver, lines):
     """evaluate a fixed subset inside Coq (vm_compute) and compare with the extracted code"""
-    sub = lines[:: max(1, len(lines) // 150)][:150]
+    sub = [_strip_reads(l)[0] for l in lines[:: max(1, len(lines) // 150)][:150]]
 
     def gal(line):
         v = line.split()[1:]
@@ -197,7 +266,7 @@ def run(ctx):
 
     for line, il, why in ofail[:3]:
         ctx.violation("RowLegalizer violates C12 on a concrete history: %s" % why,
-                      {"case": line, "format": "RL begin end n (kind width target)*, kind 0=push 1=getCost",
+                      {"case": line, "format": "RL begin end n (kind width target)*, kind 0=push 1=getCost 2=read getPlacement() (width=target=0)",
                        "implementation_output": il, "why": why,
                        "how": "./check C12 --replay <this file>"})
     if not ofail:
@@ -227,7 +296,12 @@ def run(ctx):
                 "in a small window / random / sorted with ties; widths 1..3 x scale 1 or 2^2..2^10) with probes (getCost not followed by the "
                 "insertion, asked 2-4 times identically, from the far left, the far right, as wide as the free space) after 33/65/129 "
                 "insertions and at the end, a different cell inserted after the probes, the probes asked again; the harness compares the "
-                "object's state (cells + multiset of bounds) before and after EVERY getCost and counts the bounds each one passes. non-trivial = some cell "
+                "object's state (cells + multiset of bounds) before and after EVERY getCost and counts the bounds each one passes. READS of "
+                "getPlacement() are interleaved with the insertions in all three streams (exhaustive: after every insertion, twice after the "
+                "first, for odd codes before the first and for 1 code in 3 between the prediction and the insertion; random: after 40%% of the "
+                "insertions, 30%% of those twice in a row, and after some predictions; long rows: after 3%% of the insertions and around the "
+                "late small cell / before the probed cell is inserted); every read is compared with the extracted model's placement of the same "
+                "prefix of insertions and checked by the proved certificate checker as the placement of the cells inserted so far. non-trivial = some cell "
                 "is displaced from its target (cost>0); distinct = distinct case lines" % (enum[0], enum[1], enum[2], enum[3], enum[3], total - nenum - nlong, nlong),
         "exhaustive": True,
         "exhaustive_cases": nenum,
@@ -242,7 +316,10 @@ def run(ctx):
                          "cases_with_a_getCost_passing_more_than_128_bounds": sum(s["passed_gt128"] for s in stats),
                          "max_bounds_passed_by_one_getCost": max(s["maxpassed"] for s in stats),
                          "max_cells_in_one_segment": max(s["maxcells"] for s in stats),
-                         "identical_predictions_asked_twice_in_a_row": sum(s["repeated_queries"] for s in stats)},
+                         "identical_predictions_asked_twice_in_a_row": sum(s["repeated_queries"] for s in stats),
+                         "reads_of_getPlacement_between_insertions": sum(s["reads"] for s in stats),
+                         "of_which_second_of_two_consecutive_reads": sum(s["double_reads"] for s in stats),
+                         "reads_differing_from_the_model_prefix_placement": sum(s["read_mismatch"] for s in stats)},
         "model_vs_impl_differences": len(mism),
         "impl_outputs_rejected_by_proved_checker_or_cost_oracle": len(ofail),
         "vm_compute_crosschecked_cases": nvm,
